@@ -111,7 +111,7 @@ def moveSpec (t : Terminal) : Function → Terminal
 /-- the oracle's partial specification (only from states satisfying the invariant, which is the
     hypothesis of the theorems) -/
 def specStep (t : Terminal) (f : Function) : Option Terminal :=
-  if TInv t && covered t f then some (moveSpec t f) else none
+  if covered t f then some (moveSpec t f) else none
 
 /-! ### oracle -/
 
@@ -127,7 +127,22 @@ def checkStep (ev : StepEv) : List Verdict :=
         (n.topMargin == expected.topMargin && n.bottomMargin == expected.bottomMargin
           && n.originMode == expected.originMode),
       check "no-cell-changes" true
-        (n.buffer.view == ev.prev.terminal.buffer.view && n.otherBuffer == ev.prev.terminal.otherBuffer) ]
+        (n.buffer.view == ev.prev.terminal.buffer.view && n.otherBuffer == ev.prev.terminal.otherBuffer),
+      -- "the n-th next/previous stop": stops are positions, so a stop stored twice (which `tabsOK` and
+      -- C18 exclude, and under which `moveSpec` = the formula below) must not count twice
+      (match ev.funs with
+       | [f] =>
+         let t := ev.prev.terminal
+         let distinct := t.tabs.eraseDups
+         let want : Option Nat := match f with
+           | .ht => some (min ((C18.nthAfter distinct t.cursor.col 1).getD (t.cols - 1)) (t.cols - 1))
+           | .cht k => some (min ((C18.nthAfter distinct t.cursor.col (arg k)).getD (t.cols - 1)) (t.cols - 1))
+           | .cbt k => some (min ((C18.nthBefore distinct t.cursor.col (arg k)).getD 0) (t.cols - 1))
+           | _ => none
+         match want with
+         | some c => check "tab-move-reaches-the-nth-distinct-stop" true (n.cursor.col == c)
+         | none => .pass false
+       | _ => .pass false) ]
   | none => []
 
 def checkNew (_cols _rows : Nat) (_lim : Option Nat) (_st : Vt) : List Verdict := []
